@@ -4,3 +4,5 @@
 package masswallet
 
 func verifGate(h *NtfnsHandler, point string) {}
+
+func verifImportStop(synced, stop uint64) uint64 { return stop }
